@@ -190,6 +190,29 @@ func (r *stateResolver) addAuthEvent(event PDU) {
 }
 
 // Remove the auth event with the given type and state key.
+// authEventAt returns the auth event currently registered for the given type and state key, if any.
+func (r *stateResolver) authEventAt(eventType, stateKey string) PDU {
+	switch eventType {
+	case spec.MRoomCreate:
+		if stateKey == "" {
+			return r.resolvedCreate
+		}
+	case spec.MRoomPowerLevels:
+		if stateKey == "" {
+			return r.resolvedPowerLevels
+		}
+	case spec.MRoomJoinRules:
+		if stateKey == "" {
+			return r.resolvedJoinRules
+		}
+	case spec.MRoomMember:
+		return r.resolvedMembers[spec.SenderID(stateKey)]
+	case spec.MRoomThirdPartyInvite:
+		return r.resolvedThirdPartyInvites[stateKey]
+	}
+	return nil
+}
+
 func (r *stateResolver) removeAuthEvent(eventType, stateKey string) {
 	switch eventType {
 	case spec.MRoomCreate:
@@ -242,6 +265,9 @@ func (r *stateResolver) resolveAuthBlock(events []PDU, userIDForSender spec.User
 	// (SPEC: This ensures that we always pick a state event for this type and state key.
 	//  Note that if all the events fail auth checks we will still pick the "oldest" event.)
 	result := block[0].event
+	// Remember which of the supplied auth events (if any) occupies this slot, so that it can be put
+	// back once the block is resolved.
+	previous := r.authEventAt(result.Type(), *result.StateKey())
 	// Temporarily add the candidate event to the auth events.
 	r.addAuthEvent(result)
 	for i := 1; i < len(block); i++ {
@@ -262,6 +288,11 @@ func (r *stateResolver) resolveAuthBlock(events []PDU, userIDForSender spec.User
 	// We'll add it back later when all events of the same type have been resolved.
 	// (SPEC: This is done to avoid the result of state resolution depending on the iteration order)
 	r.removeAuthEvent(result.Type(), *result.StateKey())
+	// Put back what the caller supplied for this slot: the other blocks of this type must see the same
+	// auth events whichever of them is resolved first (the order of the blocks is not defined).
+	if previous != nil {
+		r.addAuthEvent(previous)
+	}
 	return result
 }
 
